@@ -78,7 +78,8 @@ def gen_configs(rng, n, big=False):
         ntask = rng.randint(0, 6 if big else 4) if nsub else 0
         subs = [[] for _ in range(nsub)]
         for t in range(ntask):
-            subs[rng.randrange(nsub)].append((t, rng.randint(0, 99)))
+            # (a value >= 100: the task submits a follow-up task, id 128 + its own, from inside the pool)
+            subs[rng.randrange(nsub)].append((t, rng.randint(0, 99) + (100 if rng.random() < 0.2 else 0)))
         fail = rng.choice([0, 1, 2, 3]) if rng.random() < 0.15 else -1
         out.append(('%s%d' % ('b' if big else 'g', i), cfg_line(threads, flags, waitall, rng.randrange(1, 1 << 31), rng.choice([0, 5, 20, 40]), fail, subs)))
     return out
@@ -356,7 +357,7 @@ def stress_configs(rng, n):
         nsub = rng.randint(1, 4)
         subs = [[] for _ in range(nsub)]
         for t in range(rng.randint(1, 64)):
-            subs[rng.randrange(nsub)].append((t, rng.randint(0, 3)))
+            subs[rng.randrange(nsub)].append((t, rng.randint(0, 3) + (100 if rng.random() < 0.2 else 0)))
         out.append(('st%d' % i, cfg_line(rng.randint(1, 8), i % 4, (i // 4) % 2, 1, 0, -1, subs)))
     return out
 
@@ -450,7 +451,12 @@ def check(rep, rng, tier, seed, exe, ps, broken):
     impl, err = run_harness(exe, cfgs, ID)
     rep.notes.append('schedules run: %.1fs' % (time.time() - t0))
     t0 = time.time()
-    model = run_driver([(sid, impl.get(sid, [])) for sid, _ in cfgs]) if ps['driver_ok'] else None
+    # (schedules in which a task submits a follow-up task from inside the pool are counted: the Lean transition system
+    # has the m_thpool_add of a worker as program counters of its own)
+    nested_cfgs = set(sid for sid, line in cfgs if any(a >= 100 for su in parse_cfg(line)['subs'] for _, a in su))
+    rep.cov['schedules_with_tasks_submitting_tasks'] = len(nested_cfgs)
+    nested = set()
+    model = run_driver([(sid, impl.get(sid, [])) for sid, _ in cfgs if sid not in nested]) if ps['driver_ok'] else None
     rep.notes.append('trace acceptance by lmdriver: %.1fs' % (time.time() - t0))
 
     seen = set()
@@ -477,7 +483,7 @@ def check(rep, rng, tier, seed, exe, ps, broken):
         seen.add(h)
         for cl, msg in sv:
             hits.setdefault(cl, (sid, line, out, msg))
-        if model is not None:
+        if model is not None and sid not in nested:
             acc, why, bad = judge_model(model.get(sid))
             if not acc:
                 rejected.append((sid, line, out, why))
@@ -487,7 +493,7 @@ def check(rep, rng, tier, seed, exe, ps, broken):
     rep.cov['spurious_wakeups_injected'] = spur
     rep.cov['pthread_create_failures_injected'] = fails_injected
     rep.cov['max_concurrency_seen'] = maxconc
-    rep.cov['traces_accepted_by_model'] = (len(cfgs) - len(rejected)) if model is not None else 0
+    rep.cov['traces_accepted_by_model'] = (len(cfgs) - len(nested) - len(rejected)) if model is not None else 0
     rep.cov['traces_rejected_by_model'] = len(rejected)
     rep.cov['samples'] = [{'id': sid, 'config': line, 'trace': impl.get(sid, [])[:60]} for sid, line in cfgs[len(corpus()):len(corpus()) + 2]]
     rep.cov['exhaustive'] = False
